@@ -3,7 +3,7 @@
    In the model the check mutates the context's dictionaries in place (the returned
    memo of check_shape is the mutated one) and __instancecheck_str__ restores the
    snapshot; these theorems are about the stack that results. *)
-From JT Require Import model.Check proofs.CheckFacts.
+From JT Require Import model.Check proofs.CheckFacts model.PyTreeCheck proofs.PyTreeFacts.
 Open Scope string_scope.
 
 Theorem C04_reject_or_raise_restores : forall lbl st flat a v s vd s',
@@ -44,3 +44,16 @@ Theorem C04_outside_context_stateless : forall lbl st flat a v vd s',
   instancecheck flat lbl st a v [] = (vd, s') -> s' = [].
 Proof. exact instancecheck_stateless. Qed.
 Print Assumptions C04_outside_context_stateless.
+
+(* the PyTree half: a tree that is rejected, or whose check raises, at ANY point -- flatten phase,
+   structure name, k-th leaf -- leaves the whole context stack (axes and structure names) as it was *)
+Theorem C04_pytree_reject_restores : forall st l sopt x s vd s',
+  leafmatch st (LPyTree l sopt) x s = (vd, s') -> vd <> Acc -> ps_stack s' = ps_stack s.
+Proof. exact pytree_reject_restores. Qed.
+Print Assumptions C04_pytree_reject_restores.
+
+Example C04_pytree_kth_leaf :
+  let arr sh := Leaf (PArr (mkvalue true true "float32" sh)) in
+  let s := mkps [(mkmemo [("x", 5%Z)] [] [], [])] None false in
+  leafmatch [] (LPyTree (LArr (AC None "?a b")) (Some "T")) (Node KTuple [arr [2; 9]%Z; arr [3; 9]%Z; arr [4; 8]%Z]) s = (Rej, s).
+Proof. vm_compute. reflexivity. Qed.
